@@ -246,9 +246,11 @@ def consumed(f, call_block):
 # --------------------------------------------------------------------------- provenance (A4)
 
 class Prov:
-    __slots__ = ("params", "fields", "consts", "calls", "ops", "ints", "exact", "variants")
+    __slots__ = ("params", "fields", "consts", "calls", "ops", "ints", "exact", "variants", "ppaths", "pwhole")
 
     def __init__(self):
+        self.pwhole = set()    # params used as a whole (no field path)
+        self.ppaths = set()    # (param index, remaining field path)
         self.params = set()    # (param index)
         self.fields = set()    # (owner, field)
         self.consts = set()    # named const keys
@@ -259,6 +261,8 @@ class Prov:
         self.exact = True
 
     def update(self, o):
+        self.ppaths |= o.ppaths
+        self.pwhole |= o.pwhole
         self.params |= o.params
         self.fields |= o.fields
         self.consts |= o.consts
@@ -284,8 +288,16 @@ class Prov:
                 "ints": sorted(self.ints)[:10], "variants": sorted("%s::%s" % (a.split("::")[-1], v) for a, v in self.variants), "exact": self.exact}
 
 
+SAME_PATH_CALLS = {"branch", "into", "from", "clone", "deref", "deref_mut", "borrow", "borrow_mut", "as_ref", "as_mut",
+                   "to_owned", "ok_or", "ok_or_else", "map_err", "from_residual", "try_from", "try_into", "as_deref", "as_deref_mut",
+                   "copied", "cloned"}
+UNWRAP_CALLS = {"unwrap", "expect", "unwrap_or", "unwrap_or_default", "unwrap_or_else", "unwrap_unchecked"}
+
+
 class Slicer:
-    """Flow-insensitive backward slice over a body's locals with bounded inlining of analysed callees."""
+    """Flow-insensitive backward slice over a body's locals with bounded inlining of analysed callees.
+    Field-sensitive along a projection path: slicing `x.a.b` follows only the operands that build
+    field a.b when x is defined by aggregates / moves / calls into analysed functions."""
 
     def __init__(self, prog, bound=3):
         self.prog = prog
@@ -297,24 +309,29 @@ class Slicer:
             if isinstance(e, dict) and "f" in e and not e["o"].startswith("("):
                 pv.fields.add((e["o"], e["n"]))
 
-    def operand(self, f, o, depth=0, seen=None):
+    @staticmethod
+    def place_path(pl):
+        return tuple(e["f"] for e in pl.get("p", []) if isinstance(e, dict) and "f" in e)
+
+    def operand(self, f, o, depth=0, path=(), at=None):
+        """`at`: block in which the operand is used; only definitions that can reach it are followed."""
         pv = Prov()
-        self._operand(f, o, pv, depth, seen if seen is not None else set())
+        self._operand(f, o, pv, depth, set(), tuple(path), at)
         return pv
 
-    def local(self, f, l, depth=0):
+    def local(self, f, l, depth=0, path=(), at=None):
         pv = Prov()
-        self._local(f, l, pv, depth, set())
+        self._local(f, l, pv, depth, set(), tuple(path), at)
         return pv
 
-    def _operand(self, f, o, pv, depth, seen):
+    def _operand(self, f, o, pv, depth, seen, path=(), at=None):
         p = op_place(o)
         if p is not None:
             self.place_fields(p, pv)
-            self._local(f, p["l"], pv, depth, seen)
+            self._local(f, p["l"], pv, depth, seen, self.place_path(p) + path, at)
             for e in p.get("p", []):
                 if isinstance(e, dict) and "i" in e:
-                    self._local(f, e["i"], pv, depth, seen)
+                    self._local(f, e["i"], pv, depth, seen, (), at)
             return
         k = o.get("k")
         if k:
@@ -323,7 +340,7 @@ class Slicer:
                 if "promoted" in k:
                     pf = self.prog.promoted.get((d["key"], k["promoted"]))
                     if pf is not None:
-                        self._local(pf, 0, pv, depth, set())
+                        self._local(pf, 0, pv, depth, set(), path, None)
                 else:
                     pv.consts.add(d["key"])
             elif "fn" in k:
@@ -332,30 +349,53 @@ class Slicer:
             if ci is not None:
                 pv.ints.add(ci)
 
-    def _local(self, f, l, pv, depth, seen):
-        key = (id(f), l)
+    def _local(self, f, l, pv, depth, seen, path=(), at=None):
+        if len(path) > 8:
+            path = path[:8]
+        key = (id(f), l, path, at)
         if key in seen:
             return
         seen.add(key)
         if 1 <= l <= f.argc:
             pv.params.add(l)
-            # params may still be reassigned; fall through to defs
+            if path:
+                pv.ppaths.add((l, path))
+            else:
+                pv.pwhole.add(l)
         defs = f.local_defs().get(l, [])
         for (bi, si) in defs:
+            if at is not None and bi != at and at not in f.reach_from(bi):
+                continue    # this definition cannot reach the use
+            if at is not None and bi == at and si == "T" and at not in f.reach_from(bi):
+                continue    # a call result is defined at the end of the block
             bb = f.blocks[bi]
             if si == "T":
-                self._call(f, bb["t"], pv, depth, seen)
+                t = bb["t"]
+                dp = self.place_path(t["dest"])
+                if dp:
+                    # call result stored into a field of l
+                    if path[:len(dp)] == dp[:len(path)]:
+                        self._call(f, t, pv, depth, seen, path[len(dp):], bi)
+                else:
+                    self._call(f, t, pv, depth, seen, path, bi)
             else:
                 s = bb["s"][si]
-                self._rvalue(f, s["v"], pv, depth, seen)
-        # writes through &mut borrows of this local handed to calls (out-params)
+                dp = self.place_path(s["d"])
+                if dp:
+                    # partial assignment  l.dp = rv : relevant iff dp and path are compatible
+                    n = min(len(dp), len(path))
+                    if dp[:n] != path[:n]:
+                        continue
+                    self._rvalue(f, s["v"], pv, depth, seen, path[len(dp):], bi)
+                else:
+                    self._rvalue(f, s["v"], pv, depth, seen, path, bi)
+        # writes through &mut borrows of this whole local handed to calls (out-params)
         for bi, bb in enumerate(f.blocks):
             for s in bb["s"]:
                 if "d" in s and s["v"]["r"] == "ref" and s["v"].get("mut") and s["v"]["pl"]["l"] == l and not s["d"].get("p") \
                         and not s["v"]["pl"].get("p"):
-                    r = s["d"]["l"]
-                    # find calls taking r (or a reborrow chain of r)
-                    self._mut_uses(f, r, pv, depth, seen, 0)
+                    if at is None or bi == at or at in f.reach_from(bi):
+                        self._mut_uses(f, s["d"]["l"], pv, depth, seen, 0)
 
     def _mut_uses(self, f, r, pv, depth, seen, hops):
         if hops > 3:
@@ -382,64 +422,91 @@ class Slicer:
                             pv.calls.add(ci["key"])
                         for o2 in t["args"]:
                             if o2 is not o:
-                                self._operand(f, o2, pv, depth, seen)
+                                self._operand(f, o2, pv, depth, seen, ())
 
-    def _rvalue(self, f, v, pv, depth, seen):
+    def _rvalue(self, f, v, pv, depth, seen, path=(), at=None):
         r = v["r"]
-        if r in ("use", "repeat", "cast"):
-            self._operand(f, v["a"][0], pv, depth, seen)
-        elif r in ("ref", "rawptr", "discr"):
+        if r == "use":
+            self._operand(f, v["a"][0], pv, depth, seen, path, at)
+        elif r in ("repeat", "cast"):
+            self._operand(f, v["a"][0], pv, depth, seen, path if r == "cast" and v.get("kind", "").startswith(("PointerCoercion", "PtrToPtr", "Transmute")) else (), at)
+        elif r in ("ref", "rawptr"):
             pl = v["pl"]
             self.place_fields(pl, pv)
-            self._local(f, pl["l"], pv, depth, seen)
-            if r == "discr":
-                pv.ops.add("discr")
+            self._local(f, pl["l"], pv, depth, seen, self.place_path(pl) + path, at)
+        elif r == "discr":
+            pl = v["pl"]
+            self.place_fields(pl, pv)
+            self._local(f, pl["l"], pv, depth, seen, self.place_path(pl), at)
+            pv.ops.add("discr")
         elif r == "bin":
             pv.ops.add(v["op"])
             for o in v["a"]:
-                self._operand(f, o, pv, depth, seen)
+                self._operand(f, o, pv, depth, seen, (), at)
         elif r == "un":
             pv.ops.add(v["op"])
-            self._operand(f, v["a"][0], pv, depth, seen)
+            self._operand(f, v["a"][0], pv, depth, seen, (), at)
         elif r == "agg":
             if v.get("ak") == "adt":
                 pv.variants.add((v["adt"], v["variant"]))
             if v.get("ak") == "closure":
                 pv.calls.add(f.dinfo(v["def"])["key"])
-            for o in v["a"]:
-                self._operand(f, o, pv, depth, seen)
+            if path and v.get("ak") in ("adt", "tuple") and path[0] < len(v["a"]):
+                self._operand(f, v["a"][path[0]], pv, depth, seen, path[1:], at)
+            else:
+                for o in v["a"]:
+                    self._operand(f, o, pv, depth, seen, (), at)
         elif r == "setdiscr":
             pass
 
-    def _call(self, f, t, pv, depth, seen):
+    def _merge_summary(self, pv, summ):
+        pv.fields |= summ.fields
+        pv.consts |= summ.consts
+        pv.calls |= summ.calls
+        pv.ops |= summ.ops
+        pv.ints |= summ.ints
+        pv.variants |= summ.variants
+        pv.exact = pv.exact and summ.exact
+
+    def _call(self, f, t, pv, depth, seen, path=(), at=None):
         ci = f.dinfo(t["res"]) if t.get("res") is not None else (f.dinfo(t["raw"]) if "raw" in t else None)
         if ci is None:
             pv.exact = False
             for o in t["args"]:
-                self._operand(f, o, pv, depth, seen)
+                self._operand(f, o, pv, depth, seen, (), at)
             return
         key = ci["key"]
+        name = ci["name"]
+        if name == "from_residual":
+            return   # the error residual of `?` carries no payload data
         pv.calls.add(key)
         callee = self.prog.fns.get(key)
-        clos = t.get("closure")
         if callee is not None and depth < self.bound:
-            summ = self.ret_summary(callee, depth + 1)
-            pv.fields |= summ.fields
-            pv.consts |= summ.consts
-            pv.calls |= summ.calls
-            pv.ops |= summ.ops
-            pv.ints |= summ.ints
-            pv.variants |= summ.variants
-            pv.exact = pv.exact and summ.exact
+            summ = self.ret_summary(callee, depth + 1, path)
+            self._merge_summary(pv, summ)
+            ppaths = {pi: pp for (pi, pp) in summ.ppaths}
             for pi in summ.params:
                 if pi - 1 < len(t["args"]):
-                    self._operand(f, t["args"][pi - 1], pv, depth, seen)
+                    pps = [pp for (q, pp) in summ.ppaths if q == pi]
+                    if pps and len(pps) <= 6 and pi not in summ.pwhole:
+                        for pp in pps:
+                            self._operand(f, t["args"][pi - 1], pv, depth, seen, pp, at)
+                    else:
+                        self._operand(f, t["args"][pi - 1], pv, depth, seen, (), at)
         else:
             if callee is not None:
                 pv.exact = False
-            for o in t["args"]:
-                self._operand(f, o, pv, depth, seen)
-            # closures passed as arguments contribute their return value
+            if name in SAME_PATH_CALLS and t["args"]:
+                self._operand(f, t["args"][0], pv, depth, seen, path, at)
+                for o in t["args"][1:]:
+                    self._operand(f, o, pv, depth, seen, (), at)
+            elif name in UNWRAP_CALLS and t["args"]:
+                self._operand(f, t["args"][0], pv, depth, seen, (0,) + path, at)
+                for o in t["args"][1:]:
+                    self._operand(f, o, pv, depth, seen, (), at)
+            else:
+                for o in t["args"]:
+                    self._operand(f, o, pv, depth, seen, (), at)
         # closure args: include the closure body's return provenance
         for o in t["args"]:
             p = op_place(o)
@@ -450,23 +517,16 @@ class Slicer:
                 ck = f.dinfo(lt["def"])["key"]
                 cf = self.prog.fns.get(ck)
                 if cf is not None and depth < self.bound:
-                    summ = self.ret_summary(cf, depth + 1)
-                    pv.fields |= summ.fields
-                    pv.consts |= summ.consts
-                    pv.calls |= summ.calls
-                    pv.ops |= summ.ops
-                    pv.ints |= summ.ints
-                    pv.variants |= summ.variants
-                    # closure param 1 is the closure env: captured values come through the aggregate operand,
-                    # which _operand(o) above has already included.
+                    summ = self.ret_summary(cf, depth + 1, ())
+                    self._merge_summary(pv, summ)
 
-    def ret_summary(self, callee, depth):
-        k = (callee.key, depth)
+    def ret_summary(self, callee, depth, path=()):
+        k = (callee.key, depth, path)
         r = self._ret_cache.get(k)
         if r is None:
             r = Prov()
             self._ret_cache[k] = r   # recursion guard
-            self._local(callee, 0, r, depth, set())
+            self._local(callee, 0, r, depth, set(), path, None)
         return r
 
 
